@@ -5,6 +5,7 @@ pub mod c07;
 pub mod c09;
 pub mod c10;
 pub mod c12;
+pub mod c13;
 pub mod c17;
 use crate::check::Prop;
 pub fn all() -> Vec<Box<dyn Prop>> {
@@ -18,6 +19,7 @@ pub fn all() -> Vec<Box<dyn Prop>> {
         Box::new(c10::C10),
         Box::new(c03::C11),
         Box::new(c12::C12),
+        Box::new(c13::C13),
         Box::new(c17::C17),
     ]
 }
